@@ -68,8 +68,8 @@ class PandasIndexFeaturesMixin:
             strict = self.strict
 
         if strict:
-            # Check for variables in `fill_values` but not in the object
-            undefined_variables = set(fill_values.keys()) - set(self.names)
+            # Check for variables in `fill_values` but not in the object index
+            undefined_variables = set(fill_values.keys()) - set(self.index)
             if undefined_variables:
                 raise KeyError(
                     f"Found {len(undefined_variables)} undefined variable(s) "
